@@ -309,6 +309,13 @@ def c11_prop():
         quick.append(H(mod, "step_c11", "step", est_s=30, bounds="E-STEP %s: close()/send-after-close semantics from an arbitrary state" % label))
         quick.append(H(mod, "hist_c11_n5", "hold", replay=(rp + "_hist_noop", 0), mask=P(11), est_s=80,
                        bounds="E-HIST %s: close status sequence, sends after close hand the value back, pending receivers woken; N=5" % label))
+    for cap in (0, 1, 2):
+        quick.append(H(MPMC, "step_c11_c%d_tc" % cap, "step", est_s=60, est_gb=1.0, bounds="E-STEP mpmc capacity %d: try_send/try_receive/close from an arbitrary state" % cap))
+        quick.append(H(MPMC, "step_c11_c%d_ps" % cap, "step", est_s=40, est_gb=1.0, bounds="E-STEP mpmc capacity %d: poll send (send after close hands the value back)" % cap))
+        quick.append(H(MPMC, "step_c11_c%d_pr" % cap, "step", est_s=40, est_gb=1.0, bounds="E-STEP mpmc capacity %d: poll receive (drain then None)" % cap))
+    quick.append(mpmc_hist("c11", 11, 1, "cl", 3, 5))
+    quick.append(mpmc_hist("c11", 11, 0, "cl", 3, 5))
+    quick.append(mpmc_hist("c11", 11, 2, "cl", 0, 4))
     quick.append(H(LIFE, "life_state_n3", "hold", replay=("life_state", 0), mask=P(11), est_s=200,
                    bounds="E-HIST lifecycle, shared state-broadcast: up to 2+2 handles, 3 clone/drop operations"))
     thorough = quick + [
@@ -362,6 +369,75 @@ def c15_prop():
                             "the Timer (Send) facade is a pure wrapper of LocalTimerFuture; only the LocalTimer trait is driven"]}
 
 
+MPMC = "channel::mpmc::verif_mpmc::proofs"
+MPMC_FUNCS = ["mpmc::ChannelState::{try_send,send_or_register,try_receive,receive_or_register,close,clear}",
+              "mpmc::ChannelState::{try_copy_value_from_oldest_waiter,try_take_value_from_sender,remove_send_waiter,remove_receive_waiter}",
+              "wake_recv_waiters", "wake_send_waiters", "return_oldest_receive_waiter", "<ChannelSendFuture as Future>::poll",
+              "ChannelSendFuture::cancel", "<ChannelSendFuture as Drop>::drop", "<ChannelReceiveFuture as Future>::poll",
+              "<ChannelReceiveFuture as Drop>::drop", "<ChannelStream as Stream>::poll_next", "ArrayBuf::{push,pop,len,can_push}",
+              "LinkedList::{add_front,remove,remove_last,reverse_drain}", "utils::update_waker_ref"]
+MPMC_OPS = {"sr": 1 | 2 | 4 | 8, "cl": 1 | 2 | 128 | 8, "tr": 1 | 2 | 32 | 64, "ca": 1 | 2 | 16 | 64, "all": 255}
+ALPHA_TXT = {"sr": "poll send/recv (A|B) + drop send/recv", "cl": "poll send/recv + close + drop recv",
+             "tr": "poll send/recv + try_send + try_receive", "ca": "poll send/recv + cancel + try_receive", "all": "all 17 operations",
+             "st": "poll send + poll STREAM + close + try_send + drop stream"}
+
+
+def mpmc_cfg(cap, alpha, pre, stream=0):
+    ops = MPMC_OPS.get(alpha, 0)
+    if cap == 0 and alpha == "tr":
+        ops = 1 | 2 | 64 | 4
+    if alpha == "st":
+        ops = 1 | 2 | 128 | 32 | 8
+    return cap | (pre << 4) | (stream << 8) | (ops << 12)
+
+
+def mpmc_hist(tag, pbit, cap, alpha, pre, n, tier_quick=True, lock="noop", bonus=False):
+    name = "hist_%s_c%d_%s_p%d_n%d%s" % (tag, cap, alpha, pre, n, "_check" if lock == "check" else "")
+    return H(MPMC, name, "hold", replay=("mpmc_hist_%s" % lock, mpmc_cfg(cap, alpha, pre, 1 if alpha == "st" else 0)), mask=P(pbit),
+             est_s=200 if n <= 4 else 400, est_gb=3.5, timeout=(900 if tier_quick else 3400), bonus=bonus,
+             bounds="E-HIST mpmc capacity %d: 2 send + 2 receive slots (re-creatable, uniquely tagged drop-counting values), %d operations "
+                    "of which the first %d are fixed by partition #%d, alphabet {%s}%s" % (
+                        cap, n, [0, 1, 1, 2, 2, 2, 2][pre], pre, ALPHA_TXT[alpha], ", MutexType=CheckLock" if lock == "check" else ""))
+
+
+def mpmc_prop(pid, pbit, quick_sel, extra_quick=(), extra_thorough=()):
+    tag = pid.lower()
+    quick, thorough = [], []
+    for cap in (0, 1, 2):
+        for cn, what in (("ps", "poll send"), ("pr", "poll receive"), ("dc", "drop/cancel"), ("tc", "try_send/try_receive/close")):
+            quick.append(H(MPMC, "step_%s_c%d_%s" % (tag, cap, cn), "step", est_s=40, est_gb=1.0,
+                           bounds="E-STEP mpmc capacity %d: 2 send + 2 receive futures in arbitrary states/queue orders/stored wakers, "
+                                  "arbitrary buffer fill and ring position, open|closed, one operation of class '%s'" % (cap, what)))
+    for (cap, alpha, pre, n) in quick_sel:
+        quick.append(mpmc_hist(tag, pbit, cap, alpha, pre, n))
+    for cap in (0, 1, 2):
+        for alpha in ("sr", "cl", "tr", "ca"):
+            for (pre, n) in ((0, 4), (5, 5), (3, 5), (4, 5)):
+                if (cap, alpha, pre, n) not in quick_sel:
+                    thorough.append(mpmc_hist(tag, pbit, cap, alpha, pre, n, tier_quick=False))
+        thorough.append(mpmc_hist(tag, pbit, cap, "all", 0, 4, tier_quick=False))
+        thorough.append(mpmc_hist(tag, pbit, cap, "sr", 5, 5, tier_quick=False, lock="check"))
+        thorough.append(mpmc_hist(tag, pbit, cap, "sr", 5, 6, tier_quick=False, bonus=True))
+        thorough.append(mpmc_hist(tag, pbit, cap, "cl", 3, 6, tier_quick=False, bonus=True))
+    quick += list(extra_quick)
+    thorough = quick + thorough + list(extra_thorough)
+    return {"quick": quick, "thorough": thorough, "functions": MPMC_FUNCS,
+            "instantiations": ["GenericChannel<NoopLock,Tag,ArrayBuf<Tag,[Tag;C]>> for C in {0,1,2}", "MutexType=CheckLock (thorough)"],
+            "bounds": {"quick": {"futures": "2 send + 2 receive", "capacities": "E-STEP 0,1,2; E-HIST 0,1 (+2 selected)", "N_ops": "4 (5 with 2-operation prefix partitions)",
+                                 "step_history_length": "unbounded (inductive)"},
+                       "thorough": {"capacities": "0,1,2", "N_ops": "5 (6 bonus)", "alphabets": "sr, cl, tr, ca, all"}},
+            "assumptions": ["try_send is not used on capacity 0 (documented panic)",
+                            "shared (Arc) mpmc futures are thin wrappers over the same ChannelState code; they are exercised by the C11 lifecycle and C17 harnesses only"]}
+
+
+MPMC_WITNESSES = [
+    H(MPMC, "witness_rendezvous_c0", "witness", replay=("mpmc_hist_noop", 0 | (5 << 4) | ((1 | 2) << 12)), mask=PALL, witness_bit=1, est_s=150, est_gb=3.5,
+      bounds="witness twin (capacity 0): a receive takes the value of a parked sender"),
+    H(MPMC, "witness_notified_dropped_c1", "witness", replay=("mpmc_hist_noop", 1 | (4 << 4) | ((1 | 2 | 4 | 8) << 12)), mask=PALL, witness_bit=2, est_s=150, est_gb=3.5,
+      bounds="witness twin (capacity 1): a notified receiver is dropped and the wake-up is passed on"),
+]
+
+
 def _c16(prop, tier, seed):
     import os, sys
     sys.path.insert(0, os.path.join(os.path.dirname(os.path.abspath(__file__)), "c16"))
@@ -370,6 +446,12 @@ def _c16(prop, tier, seed):
 
 
 CUSTOM = {"C16": _c16}
+PROPS["C08"] = mpmc_prop("C08", 8, [(0, "sr", 0, 4), (1, "sr", 0, 4), (1, "tr", 0, 4), (0, "ca", 0, 4), (1, "ca", 0, 4), (1, "cl", 3, 5), (0, "cl", 3, 5), (2, "tr", 0, 4)],
+                        extra_quick=MPMC_WITNESSES[:1])
+PROPS["C09"] = mpmc_prop("C09", 9, [(0, "sr", 0, 4), (1, "sr", 0, 4), (1, "tr", 0, 4), (2, "tr", 0, 4), (0, "sr", 5, 5), (1, "sr", 3, 5), (2, "sr", 3, 5), (1, "ca", 0, 4)],
+                        extra_quick=MPMC_WITNESSES[:1])
+PROPS["C10"] = mpmc_prop("C10", 10, [(0, "sr", 0, 4), (1, "sr", 0, 4), (0, "sr", 5, 5), (1, "sr", 4, 5), (1, "cl", 3, 5), (0, "cl", 3, 5), (2, "sr", 4, 5), (1, "tr", 0, 4)],
+                        extra_quick=MPMC_WITNESSES)
 PROPS["C11"] = c11_prop()
 PROPS["C12"] = recv_chan_prop("C12", 12, [(ONESHOT, "oneshot", "oneshot", "witness_second_receive_n6", 3),
                                           (ONESHOT_BC, "oneshot_bc", "oneshot-broadcast", "witness_second_receive_n6", 3)],
@@ -564,6 +646,31 @@ def decode_timer(cfg, script):
 
 
 DECODERS.update({"timer_hist_noop": decode_timer, "timer_hist_check": decode_timer, "timer_delay": decode_raw})
+def decode_mpmc(cfg, script):
+    cap, pre, stream = cfg & 3, (cfg >> 4) & 15, (cfg >> 8) & 1
+    tab = [[], [0], [4], [0, 2], [4, 6], [0, 4], [4, 0]]
+    ops = list(tab[pre]) if pre < 7 else []
+    forced = len(ops)
+    out = ["channel capacity %d%s; send futures #0,#1 carry tags 1,2" % (cap, ", receive slot #1 is a ChannelStream" if stream else "")]
+    names = {14: "try_send(next tag)", 15: "try_receive()", 16: "close()"}
+    for k, op in enumerate(ops + list(script)):
+        pf = "(fixed by the partition) " if k < forced else ""
+        if op < 4:
+            out.append(pf + "poll send-future #%d with waker %s (re-created with the next tag if dropped)" % (op // 2, "AB"[op % 2]))
+        elif op < 8:
+            out.append(pf + "poll receive-%s #%d with waker %s" % ("stream" if stream and (op - 4) // 2 == 1 else "future", (op - 4) // 2, "AB"[op % 2]))
+        elif op < 10:
+            out.append("drop send-future #%d" % (op - 8))
+        elif op < 12:
+            out.append("drop receive-future #%d" % (op - 10))
+        elif op < 14:
+            out.append("cancel() send-future #%d" % (op - 12))
+        else:
+            out.append(names.get(op, "<byte %d>" % op))
+    return out
+
+
+DECODERS.update({"mpmc_hist_noop": decode_mpmc, "mpmc_hist_check": decode_mpmc, "mpmc_hist_fixedheap": decode_mpmc})
 DECODERS.update({"event_hist_noop": decode_event, "event_hist_check": decode_event})
 
 
